@@ -77,7 +77,7 @@ def p(matrix: np.ndarray) -> Union[np.ndarray, float]:
     Returns:
         Array of shape (...).
     """
-    return matrix[..., 0, 0] + matrix[..., 0, 1]
+    return np.sum(matrix[..., 0, :], axis=-1)
 
 
 def n(matrix: np.ndarray) -> Union[np.ndarray, float]:
@@ -91,7 +91,7 @@ def n(matrix: np.ndarray) -> Union[np.ndarray, float]:
     Returns:
         Array of shape (...).
     """
-    return matrix[..., 1, 0] + matrix[..., 1, 1]
+    return np.sum(matrix[..., 1, :], axis=-1)
 
 
 def top(matrix: np.ndarray) -> Union[np.ndarray, float]:
@@ -104,7 +104,7 @@ def top(matrix: np.ndarray) -> Union[np.ndarray, float]:
     Returns:
         Array of shape (...).
     """
-    return matrix[..., 0, 0] + matrix[..., 1, 0]
+    return np.sum(matrix[..., :, 0], axis=-1)
 
 
 def ton(matrix: np.ndarray) -> Union[np.ndarray, float]:
@@ -117,7 +117,7 @@ def ton(matrix: np.ndarray) -> Union[np.ndarray, float]:
     Returns:
         Array of shape (...).
     """
-    return matrix[..., 0, 1] + matrix[..., 1, 1]
+    return np.sum(matrix[..., :, 1], axis=-1)
 
 
 def pop(matrix: np.ndarray) -> Union[np.ndarray, float]:
@@ -187,7 +187,7 @@ def tpr(matrix: np.ndarray) -> Union[np.ndarray, float]:
         condition.
     """
     tp = matrix[..., 0, 0]
-    p = matrix[..., 0, 0] + matrix[..., 0, 1]
+    p = np.sum(matrix[..., 0, :], axis=-1)
     res = np.divide(tp, p, out=np.full_like(tp, np.nan, dtype=float), where=p != 0)
     res = res.item() if res.ndim == 0 else res  # Reduce to scalar
     return res
@@ -209,7 +209,7 @@ def tnr(matrix: np.ndarray) -> Union[np.ndarray, float]:
         condition.
     """
     tn = matrix[..., 1, 1]
-    n = matrix[..., 1, 0] + matrix[..., 1, 1]
+    n = np.sum(matrix[..., 1, :], axis=-1)
     res = np.divide(tn, n, out=np.full_like(tn, np.nan, dtype=float), where=n != 0)
     res = res.item() if res.ndim == 0 else res  # Reduce to scalar
     return res
@@ -231,7 +231,7 @@ def fpr(matrix: np.ndarray) -> Union[np.ndarray, float]:
         condition.
     """
     fp = matrix[..., 1, 0]
-    n = matrix[..., 1, 0] + matrix[..., 1, 1]
+    n = np.sum(matrix[..., 1, :], axis=-1)
     res = np.divide(fp, n, out=np.full_like(fp, np.nan, dtype=float), where=n != 0)
     res = res.item() if res.ndim == 0 else res  # Reduce to scalar
     return res
@@ -253,7 +253,7 @@ def fnr(matrix: np.ndarray) -> Union[np.ndarray, float]:
         condition.
     """
     fn = matrix[..., 0, 1]
-    p = matrix[..., 0, 0] + matrix[..., 0, 1]
+    p = np.sum(matrix[..., 0, :], axis=-1)
     res = np.divide(fn, p, out=np.full_like(fn, np.nan, dtype=float), where=p != 0)
     res = res.item() if res.ndim == 0 else res  # Reduce to scalar
     return res
@@ -451,7 +451,7 @@ def ppv(matrix: np.ndarray) -> Union[np.ndarray, float]:
         positive.
     """
     tp = matrix[..., 0, 0]
-    top = matrix[..., 0, 0] + matrix[..., 1, 0]
+    top = np.sum(matrix[..., :, 0], axis=-1)
     res = np.divide(tp, top, out=np.full_like(tp, np.nan, dtype=float), where=top != 0)
     res = res.item() if res.ndim == 0 else res  # Reduce to scalar
     return res
@@ -473,7 +473,7 @@ def npv(matrix: np.ndarray) -> Union[np.ndarray, float]:
         positive.
     """
     tn = matrix[..., 1, 1]
-    ton = matrix[..., 1, 1] + matrix[..., 0, 1]
+    ton = np.sum(matrix[..., :, 1], axis=-1)
     res = np.divide(tn, ton, out=np.full_like(tn, np.nan, dtype=float), where=ton != 0)
     res = res.item() if res.ndim == 0 else res  # Reduce to scalar
     return res
